@@ -4,7 +4,8 @@ PROPS = {}
 PROPS["C17"] = dict(
     driver="oracle",
     props_file="Props/C17.v",
-    coq_targets=["Oracle/Check.vo", "Oracle/Proofs.vo", "Oracle/Sound.vo", "Oracle/LinkProps.vo"],
+    coq_targets=["Oracle/Check.vo", "Oracle/Proofs.vo", "Oracle/Sound.vo"],
+    extra_props_files=["Oracle/LinkProps.v"],
     check_module="Oracle.Check",
     check_fn="check_case_c",
     case_type="ccase",
